@@ -223,10 +223,40 @@ extern uint64_t g_cnt;
 #define V_EXC_KINDS (l0_exc == 0 || l0_exc == V_LIMIT_EXC || l0_exc == L0_EXC_BAD_ALLOC || l0_exc == L0_EXC_ELEM)
 #define V_GREW_ONCE (g_nalloc + g_nrealloc == pre_g.nalloc + pre_g.nrealloc + 1)
 
+/* ------------------------------------------------------------------------------------------------ construction / destruction
+ * raw storage of a container object under construction; the logical pre-state of the operation that fills it is the empty
+ * container its base-class constructor makes */
+#if FLAVOUR == FL_STD
+#define V_RAW_LOC_OK(obj, off, p) ((obj) != OBJ(p))
+#define V_EMPTY_CAPA ((uint64_t)0)
+#define V_EMPTY_DATA(p) ((E *)0)
+#else
+#define V_RAW_LOC_OK(obj, off, p) ((obj) != OBJ(p) || (GRID_OK(off, INL(p)) && (off) + ESZ <= OFF(INL(p)) + g_N * ESZ))
+#define V_EMPTY_CAPA ((uint64_t)g_N)
+#define V_EMPTY_DATA(p) INL(p)
+#endif
+#define V_REQ_RAW(p) (V_FRESH(p, V_OBJ_BYTES) && V_RAW_LOC_OK(g_cell_obj, g_cell_off, p) && (g_cell_obj != OBJ(p) || g_cell_st == ST_RAW) && \
+                      !(g_tok_on && g_tok_obj == OBJ(p)) && g_blk_obj != OBJ(p))
+#define V_BIND_EMPTY(sn, p) ((sn).size == 0 && (sn).capa == V_EMPTY_CAPA && (sn).heap == 0 && (sn).data == V_EMPTY_DATA(p) && \
+                             (sn).data_obj == OBJ(V_EMPTY_DATA(p)) && (sn).data_off == OFF(V_EMPTY_DATA(p)))
+#define V_IS_EMPTY_NEW(p) (V_SIZE(p) == 0 && V_CAPA(p) == V_EMPTY_CAPA && !V_HEAP(p))
+/* the construction failed: no element of the object is left alive, constructions and destructions balance, every block obtained
+ * during the call was handed back (a constructor grows at most once, from the empty state: a reallocate request made by it
+ * is a request on the null buffer and obtains a block like allocate) */
+#define V_CTOR_FAILED(p) ((g_cell_obj != OBJ(p) || CAT_TC || g_cell_st == ST_RAW) && V_LIVE_DELTA(0, 0) && \
+                          (g_nalloc - pre_g.nalloc) + (g_nrealloc - pre_g.nrealloc) == g_ndealloc - pre_g.ndealloc && \
+                          (g_blk_state == pre_g.blk_state || (pre_g.blk_state == BLK_NONE && g_blk_state == BLK_FREED)))
+/* a second container of the same type used as a source only: left exactly as it was */
+#define V_SRC_UNTOUCHED(o) (V_SIZE(o) == pre_o.size && V_CAPA(o) == pre_o.capa && V_DATA(o) == pre_o.data && \
+                            (!PRE_TOK_IN(pre_g, pre_o, 0, pre_o.size) || (g_tok_on && g_tok_obj == pre_g.tok_obj && g_tok_off == pre_g.tok_off)))
+/* element i of the new contents is a copy of element i of the source container */
+#define V_COPIED_FROM_O(lo) (!(PRE_TOK_IN(pre_g, pre_o, 0, pre_o.size) && CELL_AT(V_DATA(OPSELF), (lo) + PRE_TOK_IDX(pre_g, pre_o))) || (g_cell_st == ST_LIVE && g_cell_val == pre_g.tokval))
+
 /* ------------------------------------------------------------------------------------------------ memory algorithms (C15)
  * one range [p, p + g_cnt): effect of the algorithm on the tracked cell / token, stated exactly as ghost/l0.h does for the
  * std:: namesake; pre_p1 / pre_p2 are logical variables holding the pointer arguments at entry */
 extern E *pre_p1, *pre_p2;
+extern void *g_other;   /* a second container object: the argument is either *this (g_alias) or this object */
 #define RANGE_LOC_OK(p) ((g_cell_obj != OBJ(p) || GRID_OK(g_cell_off, p)) && (!g_tok_on || g_tok_obj != OBJ(p) || GRID_OK(g_tok_off, p)))
 #define CNT_OF(n) ((n) > 0 ? (uint64_t)(n) : (uint64_t)0)
 #define PRE_CELL_INR(p, lo, hi) (pre_g.cell_obj == OBJ(p) && pre_g.cell_off >= OFF(p) + (uint64_t)(lo) * ESZ && pre_g.cell_off < OFF(p) + (uint64_t)(hi) * ESZ)
@@ -245,6 +275,13 @@ extern E *pre_p1, *pre_p2;
 /* k objects constructed (value-initialised / copies / moved-in) at d0, nothing else touched */
 #define LOOP_CONSTRUCTED(d0, k) ((CELL_INR(d0, 0, k) ? (g_cell_st == ST_LIVE) : (g_cell_st == LE(g_cell_st) && g_cell_val == LE(g_cell_val))) && g_nctor == LE(g_nctor) + (uint64_t)(k))
 
+/* k elements copy-assigned onto d0[0..k) from the range that starts soff elements after s0: destinations alive and holding the
+ * value of their source, a token that sat on a destination is gone, everything else untouched */
+#define LOOP_COPY_ASSIGNED(s0, soff, d0, k) \
+   ((CELL_INR(d0, 0, k) ? (g_cell_st == ST_LIVE && (!(g_tok_on && g_tok_obj == OBJ(s0) && g_tok_off - (OFF(s0) + (uint64_t)(soff) * ESZ) == g_cell_off - OFF(d0)) || g_cell_val == g_tokval)) \
+                        : (g_cell_st == LE(g_cell_st) && g_cell_val == LE(g_cell_val))) && \
+    ((LE(g_tok_on) && TOK_LOC_INR(d0, 0, k)) ? !g_tok_on : g_tok_on == LE(g_tok_on)) && \
+    g_nassign >= LE(g_nassign) && g_nassign <= LE(g_nassign) + (uint64_t)(k))
 /* k elements moved from f0 to d0: destinations alive, sources moved-from, the token followed its element, the rest untouched */
 #define MOVED_UPTO(f0, d0, k) ((CELL_INR(d0, 0, k) ? g_cell_st == ST_LIVE : (CELL_INR(f0, 0, k) ? (CAT_TC || g_cell_st == ST_MOVED) : (g_cell_st == LE(g_cell_st) && g_cell_val == LE(g_cell_val)))) && \
     ((LE(g_tok_on) && LE(g_tok_obj) == OBJ(f0) && LE(g_tok_off) >= OFF(f0) && LE(g_tok_off) < OFF(f0) + (uint64_t)(k) * ESZ) ? (g_tok_obj == OBJ(d0) && g_tok_off - OFF(d0) == LE(g_tok_off) - OFF(f0)) : (g_tok_obj == LE(g_tok_obj) && g_tok_off == LE(g_tok_off))))
